@@ -145,7 +145,7 @@ def run(chk, gate, status):
         rg = recipes.RecipeGen(rng, rng.randint(3, 8))
         qs = C09.make_queries(rng, rg, chk.tier)[:20] + C15.make_queries(rng, rg, chk.tier)[:24]
         rprogs.append(rg.prog(qs))
-    job = {'progs': progs, 'recipes': rprogs}
+    job = {'progs': progs, 'recipes': rprogs, 'observers': True}
     # ---- separate processes
     results = {}
     for k, cfg in enumerate(configs):
@@ -183,6 +183,26 @@ def run(chk, gate, status):
                 for (v, x), (_, y) in zip(a['out'], b['out']):
                     for t in cmp_user(user_units(x, base, prog['subs']), user_units(y, cfg, prog['subs']), atol_mol, atol_vol, rel):
                         msgs.append(f"op {i} ({prog['ops'][i]['op']}), {base[:2]} vs {cfg[:2]}: {t}")
+            # the observers asked in explicit user units (3 decimals; uL 0, umol 1) on every object alive at the end
+            if not msgs:
+                oa, ob = results[base].get('observers', [{}] * len(progs))[pi], results[cfg].get('observers', [{}] * len(progs))[pi]
+                for v in oa:
+                    for name, xs in oa[v].items():
+                        ys = ob.get(v, {}).get(name)
+                        if ys is None or len(ys) != len(xs):
+                            msgs.append(f"object {v}: {name} gives {xs[:4]} under {base[:2]}, {ys if ys is None else ys[:4]} under {cfg[:2]}")
+                            continue
+                        unit = name.split()[1] if name.startswith('get_') else name.split()[2]
+                        digits = {'uL': 0, 'umol': 1}.get(unit, 3)
+                        for x, y in zip(xs, ys):
+                            if isinstance(x, str) or isinstance(y, str):
+                                if x != y:
+                                    msgs.append(f"object {v}: {name} raises {x} under {base[:2]}, {y} under {cfg[:2]}")
+                                continue
+                            # (a plate's total is the sum of the wells' rounded read-outs: one unit of the last digit per well)
+                            nw = len(oa[v].get('get_volumes uL', [0])) if name.startswith('get_volume ') else 1
+                            if abs(x - y) > 1.1 * 10 ** (-digits) * nw + abs(y) * float(rel) * 5:
+                                msgs.append(f"object {v}: {name} gives {x!r} under {base[:2]}, {y!r} under {cfg[:2]}")
             if msgs:
                 nfail += 1
                 if nfail <= 3:
